@@ -28,8 +28,13 @@ def pair_status(ctx):
             if o.klass[0] != 'exit':
                 raise C.InfraError('abidiff died on pool pair %s %s: %s' % (v1, v2, o.klass))
             ctx.memo[key] = o.exit
+            ctx.memo[('report',) + key[1:]] = K.norm_report(o.stdout, indent=True)
         return ctx.memo[key]
     return f
+
+
+def pair_report(ctx, v1, v2, options):
+    return ctx.memo.get(('report', v1, v2, '--redundant' in options))
 
 
 def make_items(ctx, only=None):
@@ -52,6 +57,11 @@ def make_items(ctx, only=None):
             raise C.InfraError('workload %s leaves the region the reference model is valid in: ELF directory prefixes %r' % (name, K.side_prefixes(wl)))
         it = c31.prepare_item(ctx, name, wl, variant='plain')
         it['model'] = K.model(wl, ps)
+        # the per-binary report of every changed pair, as abidiff prints it (abipkgdiff indents it by two blanks)
+        it['model']['reports'] = sorted((os.path.basename(f['path']), pair_report(ctx, f['v1'], f['v2'], wl['options'])) for f in wl['files']
+                                        if f['v1'] and f['v2'] and os.path.basename(f['path']) in it['model']['sections']
+                                        and not ('--fail-no-dbg' in wl['options'] and (f['v1'].endswith('_nodbg') or f['v2'].endswith('_nodbg')))
+                                        and ps(f['v1'], f['v2'], wl['options']) & 4)
         items[name] = it
     return items
 
@@ -91,6 +101,12 @@ def execute(ctx, it, params):
             verdict, key = ('verdict-mismatch', 'exit status %d, but OR of abidiff on the matched pairs %s removed-binary bits is %d' % (o.exit, 'plus' if m['removed'] else 'without', m['status'])), 'verdict-mismatch:pair-status'
         elif rep['sections'] != m['sections'] or rep['section_ends'] != m['sections']:
             verdict, key = ('verdict-mismatch', '"changes of" sections %s, expected %s (pairs whose abidiff status has the change bit)' % (rep['sections'], m['sections'])), 'verdict-mismatch:section-presence'
+        elif sorted(rep['bodies']) != [list(x) for x in m['reports']] and sorted(rep['bodies']) != [tuple(x) for x in m['reports']]:
+            got = dict((n, b) for n, b in rep['bodies'])
+            bad = [n for n, b in m['reports'] if got.get(n) != b]
+            if not all(b for n, b in m['reports']):
+                raise C.InfraError('empty abidiff report for a changed pair: %r' % [n for n, b in m['reports'] if not b])
+            verdict, key = ('verdict-mismatch', 'the per-binary report of %s differs from what abidiff prints for the same pair with the same options' % (bad[:3] or '(multiset)')), 'verdict-mismatch:per-binary-report'
         elif rep['removed'] != m['removed']:
             verdict, key = ('verdict-mismatch', 'Removed binaries list %s, expected %s' % (rep['removed'], m['removed'])), 'verdict-mismatch:removed-list'
         elif show_added and rep['added'] != m['added']:
@@ -131,6 +147,7 @@ def describe(ctx, cov, items, plans, results):
                      'workloads_anchored_to_keep_elf_dir_prefix_equal': sum(1 for it in items.values() if it['wl'].get('anchored')),
                      'workloads_with_removal_or_addition_inside_a_directory_tree': sum(1 for it in items.values() if any('/' in f['path'] for f in it['wl']['files'])
                                                                                       and any(not (f['v1'] and f['v2']) for f in it['wl']['files'])),
+                     'per_binary_reports_compared_with_abidiff_text': sum(len(it['model'].get('reports', [])) for it in items.values()),
                      'workloads_all_clean': sum(1 for it in items.values() if it['model']['status'] == 0),
                      'workloads_with_changed_and_clean_pairs': sum(1 for it in items.values() if it['model']['sections'] and len(it['model']['sections']) < sum(1 for f in it['wl']['files'] if f['v1'] and f['v2'])),
                      'distinct_pairs_judged_by_abidiff': sum(1 for k in ctx.memo if k[0] == 'pair'),
